@@ -3454,6 +3454,10 @@ func _real(n *node) {
 }
 
 func _delete(n *node) {
+	if t := n.child[1].typ.TypeOf(); t != nil && t.Kind() == reflect.Map {
+		// A constant key takes the key type of the map.
+		convertLiteralValue(n.child[2], t.Key())
+	}
 	value0 := genValue(n.child[1]) // map
 	value1 := genValue(n.child[2]) // key
 	in := []func(*frame) reflect.Value{value0, value1}
